@@ -91,6 +91,9 @@ class RefAgent:
         #: a proxy / multi-context engine may put yet another (non-empty) contextEngineID into its Reports; the engine id a
         #: client has to adopt is msgAuthoritativeEngineID (RFC 3414 section 4), never this one
         self.report_ctx_other: Optional[bytes] = None
+        #: msgMaxSize the agent announces in its own messages (what IT can receive, 484 .. 2^31-1); it says nothing
+        #: about the size of the message that carries it
+        self.announce_max_size = 65507
         #: speed of the engine clock relative to the simulator's virtual time (clock drift; 0.5 and 0.75 are exact in binary)
         self.rate = 1.0
 
@@ -295,7 +298,7 @@ class RefAgent:
             req["resp_salt"] = salt
         sec = {"engine_id": f["engine_id"], "boots": f["boots"], "time": f["time"],
                "user": f["user"], "auth": b"\x00" * 12 if level & 1 else b"", "priv": salt}
-        raw = S.enc_v3_msg(f["msg_id"], f.get("max_size", 65507), f["flags"], 3,
+        raw = S.enc_v3_msg(f["msg_id"], f.get("max_size", self.announce_max_size), f["flags"], 3,
                            S.enc_usm_params(sec, lf), data, lf)
         if level & 1 and user is not None and user.auth_proto:
             akey = f.get("_auth_key") or U.localised_key(user.auth_proto, user.auth_pass, f["engine_id"])
